@@ -545,8 +545,66 @@ def check_close_and_cancel(repo, rep):
     rep.floor(rid, 2)
 
 
+GETTER_MEMOS = {"metrics": {"_cached_metrics"}}          # a getter's own memo field (its key is decided by C16-R5)
+
+
+def check_getters_observe_only(repo, rep):
+    """what a strategy READS (self.average_take_profit, self.is_open, self.metrics ...) must not change what the next step does: the
+    modification test compares the declarations with remembered copies, and a getter that re-prepares them makes a fresh declaration
+    look unmodified"""
+    import ast as _ast
+    rid = "C10-R7"
+    rep.rule(rid, "every @property of Strategy is an observer: it assigns no attribute of the strategy (except its own named memo field) and "
+                  "calls no method of the strategy that - directly or through other methods - assigns one")
+    cls = repo.cls(STRAT, "Strategy")
+    methods = {f.name: f for f in cls.body if isinstance(f, _ast.FunctionDef)}
+
+    def self_writes(f):
+        out = set()
+        me = f.args.args[0].arg if f.args.args else "self"
+        for n in _ast.walk(f):
+            tgts = n.targets if isinstance(n, _ast.Assign) else [n.target] if isinstance(n, (_ast.AugAssign, _ast.AnnAssign)) else []
+            for t in tgts:
+                for tt in (t.elts if isinstance(t, (_ast.Tuple, _ast.List)) else [t]):
+                    b = tt
+                    while isinstance(b, (_ast.Subscript, _ast.Attribute)) and not (isinstance(b, _ast.Attribute) and isinstance(b.value, _ast.Name) and b.value.id == me):
+                        b = b.value
+                    if isinstance(b, _ast.Attribute) and isinstance(b.value, _ast.Name) and b.value.id == me:
+                        out.add(b.attr)
+        return out
+
+    def self_calls(f):
+        me = f.args.args[0].arg if f.args.args else "self"
+        return {n.func.attr for n in _ast.walk(f) if isinstance(n, _ast.Call) and isinstance(n.func, _ast.Attribute) and isinstance(n.func.value, _ast.Name)
+                and n.func.value.id == me and n.func.attr in methods}
+    writers = {name for name, f in methods.items() if self_writes(f)}
+    changed = True
+    while changed:
+        changed = False
+        for name, f in methods.items():
+            if name not in writers and self_calls(f) & writers:
+                writers.add(name)
+                changed = True
+    n = 0
+    for name, f in methods.items():
+        if not any(isinstance(d, _ast.Name) and d.id == "property" for d in f.decorator_list):
+            continue
+        n += 1
+        w = self_writes(f) - GETTER_MEMOS.get(name, set())
+        c = self_calls(f) & writers
+        if w:
+            rep.violation(rid, f"getter|{name}|writes", f"Strategy.{name} (a @property) assigns self.{sorted(w)[0]}: reading it changes the strategy's state")
+        if c:
+            rep.violation(rid, f"getter|{name}|calls", f"Strategy.{name} (a @property) calls self.{sorted(c)[0]}(), which assigns attributes of the strategy: reading it changes the strategy's state")
+        rep.instance(rid, name)
+    if n < 30:
+        raise AnalysisError(f"C10-R7: only {n} properties of Strategy found")
+    rep.floor(rid, 30)
+
+
 def run(repo: Repo, rep, tier: str):
     rep.exhaustive = True
+    rep.guarded(check_getters_observe_only, repo, rep)
     rep.assume("backtest mode; _get_formatted_order is modelled as list-of-rows normalisation; exchange ledger is a sink")
     rep.guarded(check_entries, repo, rep)
     rep.guarded(check_exits, repo, rep)
